@@ -37,7 +37,7 @@ class _Abort(BaseException):
 class Controller:
     """Lets exactly one worker thread run at a time; a worker stops at every gate (visible operation)."""
 
-    def __init__(self, nthreads, watchdog=4.0):
+    def __init__(self, nthreads, watchdog=10.0):
         self.n = nthreads
         self.watchdog = watchdog
         self.ctrl = threading.Semaphore(0)
@@ -820,6 +820,8 @@ def job_sets(thorough):
         (spec("lr", "lr", [[ps, 0, "1+2"], [ps, 0, "1+2"]]), 2),
         (spec("fw", "lr", [[ps, 0, "a"], [ps, 0, "b"]]), 3),
         (spec("lr", "lr", [[sc, 0, "1+2"], [ps, 0, "3"]]), 1),
+        # parse action calling parse_string below a Forward: reset_cache (packrat_cache_lock) while holding recursion_lock
+        (spec("act", "lr", [[ps, 0, "ab,b"], [ps, 0, "a"]]), 2),
     ]
     if thorough:
         explore += [
